@@ -68,3 +68,39 @@ def unchanged(snap, a):
 
 def in_range(a, lo, hi):
     return AND(b_and(compare('>=', x, lo), compare('<=', x, hi)) for x in np.asarray(a, dtype=object).reshape(-1))
+
+
+LAYOUTS = ('plain', 'reversed', 'strided', 'columns', 'transposed', 'negated')
+
+
+def list_in_layout(env, M, gs, ps, form):
+    """a PauliList denoting rows `rows` of (gs, ps) whose table is stored in the given memory layout: a reversed or
+    strided selection of a longer list, a column window of a wider array, a transposed buffer, a negated list sharing
+    its strings.  'strided' needs 4 input rows, the others 2.  Returns (list, rows, phase shift per row)."""
+    import numpy as np
+    base = M.pa.PauliList(gs.copy(), ps.copy())
+    L = gs.shape[0]
+    shift = 0
+    if form == 'reversed':
+        obj, rows = base[::-1], list(range(L))[::-1]
+    elif form == 'strided':
+        obj, rows = base[::2], list(range(0, L, 2))
+    elif form == 'columns':
+        if env.symbolic:
+            from symclif.shim_numpy import S
+            wide = S(np.concatenate([np.asarray(gs, dtype=object), np.asarray(gs, dtype=object)], axis=1))
+        else:
+            wide = np.concatenate([np.asarray(gs), np.asarray(gs)], axis=1)
+        obj, rows = M.pa.PauliList(wide[:, :gs.shape[1]], ps.copy()), list(range(L))
+    elif form == 'transposed':
+        if env.symbolic:
+            from symclif.shim_numpy import S
+            tr = S(np.ascontiguousarray(np.asarray(gs, dtype=object).T)).T
+        else:
+            tr = np.ascontiguousarray(np.asarray(gs).T).T
+        obj, rows = M.pa.PauliList(tr, ps.copy()), list(range(L))
+    elif form == 'negated':
+        obj, rows, shift = -base, list(range(L)), 2
+    else:
+        obj, rows = base, list(range(L))
+    return obj, rows, shift
